@@ -64,7 +64,7 @@ def wrap_age(rng):
     return max(0, base + e)
 
 
-def gen_history(rng, nops, big_ok=True):
+def gen_history_core(rng, nops, big_ok=True):
     ops = []
     nports = rng.choice([1, 2, 2, 3, 3, 4])
     nclients = rng.choice([0, 1, 1, 2, 3])
@@ -240,6 +240,58 @@ def gen_housekeeping(rng):
     return ' '.join(ops)
 
 
+def gen_history(rng, nops, big_ok=True):
+    """A random history; in a third of the cases the sinks are REAL ola::Client objects on a stub with
+    deferred acks ("rc", with "ack" ops sprinkled in), in a third the daemon has two universes sharing the
+    clients ("@" ops go to the second one)."""
+    ops = gen_history_core(rng, nops, big_ok).split(' ')
+    real = rng.random() < 0.35
+    two = rng.random() < 0.3
+    out = []
+    for o in ops:
+        if two and rng.random() < 0.4:
+            o = '@' + o
+        out.append(o)
+        if rng.random() < 0.06:
+            out.append('ack,%d,%d' % (rng.randrange(8), rng.choice([0, 1, 1, 2])))
+    return ('rc ' if real else '') + ' '.join(out)
+
+
+def gen_real_sinks(rng):
+    """Real Client::SendDMX/SendDMXCallback under the universe: bursts of frame changes in one or two
+    universes that share sink clients while acks are outstanding, delivered late, partially, or never."""
+    ops = ['rc']
+    sinks = rng.sample(range(8), rng.choice([1, 2, 3]))
+    both = rng.random() < 0.7
+    unis = ['', '@'] if both else [rng.choice(['', '@'])]
+    for u in unis:
+        ops.append(u + 'mode,%d' % rng.choice([0, 1]))
+        for c in sinks:
+            if rng.random() < 0.85:
+                ops.append(u + 'ak,%d' % c)
+        ops.append(u + 'ai,%d' % rng.randrange(2))
+        ops.append(u + 'ai,%d' % (2 + rng.randrange(2)))
+        if rng.random() < 0.5:
+            ops.append(u + 'ao,%d' % rng.randrange(8))
+    now = rng.randrange(1, 10 ** 7)
+    srcc = rng.sample(range(8), 2)
+    for _ in range(rng.choice([4, 8, 12, 20])):
+        now += rng.choice([0, 1, 1000, 22000, 40000, 1000000])
+        u = rng.choice(unis)
+        r = rng.random()
+        if r < 0.5:
+            ops.append(u + 'pd,%d,%s,%d,%d' % (rng.randrange(4), hx(gen_frame(rng, False) or [7]), now, now))
+        elif r < 0.75:
+            ops.append(u + 'cd,%d,%s,%d,%d,%d' % (rng.choice(srcc), hx(gen_frame(rng, False) or [8]), rng.choice([100, 100, 101]), now, now))
+        elif r < 0.82:
+            ops.append(u + 'sd,%s' % hx(gen_frame(rng, False) or [9]))
+        elif r < 0.97:
+            ops.append('ack,%d,%d' % (rng.choice(sinks), rng.choice([0, 0, 1, 2])))
+        else:
+            ops.append(u + rng.choice(['rk,%d', 'ak,%d']) % rng.choice(sinks))
+    return ' '.join(ops)
+
+
 def gen_long_silence(rng):
     """Sources that stop for days/weeks (ages around 2^31/2^32 us, ms, s) while another source of the same
     or a lower priority carries on: the silent one must stay out of the merge for ever."""
@@ -306,6 +358,8 @@ def gen_cases(rng, tier):
         yield gen_housekeeping(rng)
     for k in range(n // 10):
         yield gen_long_silence(rng)
+    for k in range(n // 8):
+        yield gen_real_sinks(rng)
     # raw struct timeval liveness (TimerAdd carry, timercmp, timerisset) around the 2.5 s boundary and at
     # ages where a fixed-width counter of us / ms / s would wrap
     for k in range(n // 8):
@@ -325,7 +379,7 @@ def nontrivial(payload, md):
 
 
 RULE = ('random histories (1-40 ops after a random patching prologue) over <=4 input ports, <=3 source clients, '
-        '<=3 output ports, <=3 sink clients (each with a scripted WriteDMX/SendDMX return value), SetDMX, both merge modes with switches mid-history; '
+        '<=3 output ports, <=3 sink clients (each with a scripted WriteDMX/SendDMX return value; in a third of the cases and in a dedicated family the sinks are REAL ola::Client objects over a stub with deferred/partial/never-arriving acks, and in a third there are two universes sharing the clients), SetDMX, both merge modes with switches mid-history; '
         'very long silences (ages at and inside 2^15..2^33 us/ms/s, i.e. where a fixed-width time counter wraps) in random histories, a long-silence family and the raw timeval cases; housekeeping histories (CleanStaleSourceClients every 10 s, 2-4 runs, clients streaming every 0.5-2.4 s or going silent, another group member updating right after a run); priorities from '
         '{0,1,99,100,101,199,200}+palette (+201/255 rarely), clock steps {0,1,2499999,2500000,2500001,...} '
         'including steps aimed at ts+2.5s-1/+0/+1 of an existing source, stamps equal/older/newer than the clock '
@@ -334,7 +388,7 @@ RULE = ('random histories (1-40 ops after a random patching prologue) over <=4 i
         'changed the frame and produced fan-out calls; distinct = distinct model output line')
 ASSUMPTIONS = ['operator new does not fail',
                'time stamps non-negative, normalised (tv_usec < 10^6) and below 2^62 microseconds (struct timeval arithmetic does not overflow)',
-               'sink and source clients are ordered by object address; the harness allocates clients in one '
+               'acks of UpdateDmxData arrive through the stub in issue order; sink and source clients are ordered by object address; the harness allocates clients in one '
                'block so that address order is id order']
 TRUSTED = ['modelled rather than verified: Universe.cpp MergeAll/HTPMergeSources/UpdateDependants/PortDataChanged/'
            'SourceClientDataChanged/CleanStaleSourceClients/SetDMX/SetMergeMode/Add*/Remove*, DmxSource IsSet/IsActive, BasicInputPort::DmxChanged/'
